@@ -18,7 +18,7 @@ RULE = ('case = up to 6 requests with patterns sharing prefixes of length 1..4 a
         '(request script, loss script, observed transmission-time vector).')
 ASSUMPTIONS = ['virtual time: library processing takes zero time, so retransmission instants are exact',
                'two requests with identical patterns pending at once are not generated (the library keys timers by pattern)']
-REQUIRED = ['mon.links_closed_at_the_instant_a_retry_timer_expires_and_reopened_at_once', 'mon.answers_handed_out_by_the_driver_of_a_closed_session', 'mon.pairs_of_requests_pending_with_the_same_expectation', 'mon.answers_that_were_the_first_packet_the_object_ever_received',
+REQUIRED = ['mon.delivery_guarantee_flags_of_stream_drivers_checked', 'mon.links_closed_at_the_instant_a_retry_timer_expires_and_reopened_at_once', 'mon.answers_handed_out_by_the_driver_of_a_closed_session', 'mon.pairs_of_requests_pending_with_the_same_expectation', 'mon.answers_that_were_the_first_packet_the_object_ever_received',
             'mon.set_up_requests_of_the_library_on_a_link_without_delivery_guarantee',
             'mon.cases_with_a_second_crazyflie_object_waiting_for_the_same_answer',
             'mon.requests_issued_from_the_callback_of_the_previous_answer_with_the_same_expectation',
@@ -125,6 +125,15 @@ def run_usbclose(desc, ctx):
     import cflib.crtp.usbdriver as ud
     from cflib.crtp.crtpstack import CRTPPacket
     rnd = random.Random(desc['seed'])
+    # the drivers of links that deliver every packet themselves (USB, TCP, UART) say so: no retransmission by the library
+    import importlib
+    for modname, clsname in (('cflib.crtp.tcpdriver', 'TcpDriver'), ('cflib.crtp.serialdriver', 'SerialDriver'), ('cflib.crtp.usbdriver', 'UsbDriver')):
+        drv = getattr(importlib.import_module(modname), clsname)()
+        ctx.evals()
+        ctx.count('mon.delivery_guarantee_flags_of_stream_drivers_checked')
+        if drv.needs_resending is not False:
+            ctx.violate('retry:driver-of-a-link-that-guarantees-delivery-asks-for-retransmissions',
+                        {'driver': clsname, 'needs_resending': repr(drv.needs_resending)}, replay={'kind': 'usbclose', 'seed': desc['seed']})
     for case in range(8):
         fail_on_close = case % 2 == 1
         ob = {'writes': [], 'closed_at': None, 'errors': []}
